@@ -1630,3 +1630,102 @@ func checkConsolidateIdentity(p *load.Program, r *kit.Report, rule string) {
 	}
 	r.Check(bad == "", rule, key, pos, "parent, firstHeader, parentHeight and offset are other's", bad+": the consolidated main chain is named (and saved) as another branch")
 }
+
+// checkSplitAboveListedHeight (C19): inside the back-off loop of Branch.GetLocatorHashes the entry
+// for a chain split {Height: split.Height, Hash: split.BeforeHash} is inserted only when the height
+// about to be listed is strictly below the split height. With `<=` a split at exactly that height
+// puts the hash of header S-1 (labelled S) in front of the best-chain hash of header S: the locator
+// is no longer newest-first.
+func checkSplitAboveListedHeight(p *load.Program, r *kit.Report, rule string) {
+	f := fn(p, r, rule, H, "Branch.GetLocatorHashes")
+	if f == nil {
+		return
+	}
+	key := "Branch.GetLocatorHashes/split-strictly-above-listed-height"
+	beforeF := p.Field(H, "Split", "BeforeHash")
+	splitHF := p.Field(H, "Split", "Height")
+	hashF := p.Field(H, "HeightHash", "Hash")
+	var at *ssa.Call
+	for _, c := range kit.CallsTo(f, H+".Branch.AtHeight") {
+		if cc, ok := c.(*ssa.Call); ok && len(cycleOf(cc.Block())) > 0 {
+			at = cc
+		}
+	}
+	if at == nil || beforeF == nil || splitHF == nil || hashF == nil {
+		r.Unknown(rule, key, "-", "AtHeight call in the back-off loop or the Split/HeightHash fields not found")
+		return
+	}
+	loop := cycleOf(at.Block())
+	lin := kit.NewLin(f)
+	heightL := lin.Of(at.Call.Args[len(at.Call.Args)-1])
+	// the entries built from split.BeforeHash inside the loop
+	n := 0
+	k := newKeyer()
+	kit.AllInstrs(f, func(in ssa.Instruction) {
+		st, ok := in.(*ssa.Store)
+		if !ok || !loop[in.Block()] {
+			return
+		}
+		fl, _ := kit.FieldOfAddr(st.Addr)
+		if fl != hashF {
+			return
+		}
+		sf, sbase := kit.LoadedField(st.Val)
+		if sf != beforeF {
+			return
+		}
+		n++
+		// the Height of the same split
+		var shL kit.Lin
+		found := false
+		kit.AllInstrs(f, func(in2 ssa.Instruction) {
+			if u, ok := in2.(*ssa.UnOp); ok && u.Op == token.MUL {
+				if f2, b2 := kit.FieldOfAddr(u.X); f2 == splitHF && lin.Key(b2) == lin.Key(sbase) && !found {
+					shL = lin.Of(u)
+					found = true
+				}
+			}
+			if fv, ok := in2.(*ssa.Field); ok {
+				if f2, b2 := kit.FieldOfAddr(fv); f2 == splitHF && lin.Key(b2) == lin.Key(sbase) && !found {
+					shL = lin.Of(fv)
+					found = true
+				}
+			}
+		})
+		kk := k.key(key)
+		if !found || !shL.OK || !heightL.OK {
+			r.Unknown(rule, kk, posOf(p, in), "split height (%v) or listed height (%s) not normalisable", found, heightL.String())
+			return
+		}
+		gs := kit.FindGuards(f, func(c ssa.Value) (bool, bool) { return cmpMatches(lin, c, shL.Sub(heightL), 1) })
+		ok2, path := kit.DominatedByEdges(f, in, edgesOf(gs, true), nil, p.Pos)
+		if !(ok2 && len(gs) > 0) {
+			// the insertion may sit at the end of an iteration, after the step down: the height
+			// about to be listed is then the value carried to the next AtHeight
+			if ph, isPhi := kit.Strip(at.Call.Args[len(at.Call.Args)-1]).(*ssa.Phi); isPhi {
+				for _, e := range ph.Edges {
+					ei, isI := e.(ssa.Instruction)
+					if !isI || ei.Block() == nil || !loop[ei.Block()] {
+						continue
+					}
+					nextL := lin.Of(e)
+					if !nextL.OK {
+						continue
+					}
+					gs2 := kit.FindGuards(f, func(c ssa.Value) (bool, bool) { return cmpMatches(lin, c, shL.Sub(nextL), 1) })
+					if ok3, _ := kit.DominatedByEdges(f, in, edgesOf(gs2, true), nil, p.Pos); ok3 && len(gs2) > 0 {
+						// and the stepped value is computed before the insertion in the same iteration
+						if ei.Block().Dominates(in.Block()) {
+							ok2, gs = true, gs2
+						}
+					}
+				}
+			}
+		}
+		r.Check(ok2 && len(gs) > 0, rule, kk, posOf(p, in), "the split entry is behind split.Height > the height about to be listed",
+			"a split entry can be inserted when the height about to be listed is not strictly below split.Height ("+path+"): for a split at exactly that height the hash of the header below it comes before the best-chain hash of the same label, and the locator is not newest-first")
+	})
+	if n == 0 {
+		r.Unknown(rule, key, "-", "no split entry is built inside the back-off loop")
+	}
+}
